@@ -154,14 +154,14 @@ fn replay_of(case: &Case, seed: u64) -> Value {
     json!({"kind":"msm","number":case.n,"sats":case.s,"sigs":case.g,"cells":case.c.iter().map(|x| vec![x.0, x.1]).collect::<Vec<_>>(),"seed":seed.to_string()})
 }
 
-const FAULTS: [&str; 12] = ["all_cells_removed", "all_satellite_rows_removed", "satellite_0", "satellite_above_64", "unrecognised_signal", "duplicate_satellite", "duplicate_cell", "satellite_without_cell", "cell_without_satellite", "satellite_row_renamed", "cells_of_satellite_renamed", "more_than_64_mask_cells"];
+const FAULTS: [&str; 13] = ["cell_overwritten_by_copy_of_another", "all_cells_removed", "all_satellite_rows_removed", "satellite_0", "satellite_above_64", "unrecognised_signal", "duplicate_satellite", "duplicate_cell", "satellite_without_cell", "cell_without_satellite", "satellite_row_renamed", "cells_of_satellite_renamed", "more_than_64_mask_cells"];
 
 fn expected_error(fault: &str) -> &'static str {
     match fault {
         "satellite_0" | "satellite_above_64" => "InvalidSatelliteId",
         "unrecognised_signal" => "InvalidSignalId",
         "duplicate_satellite" => "DuplicateSatellite",
-        "duplicate_cell" => "DuplicateSatelliteSignal",
+        "duplicate_cell" | "cell_overwritten_by_copy_of_another" => "DuplicateSatelliteSignal",
         "satellite_without_cell" | "cell_without_satellite" | "satellite_row_renamed" | "cells_of_satellite_renamed" | "all_cells_removed" | "all_satellite_rows_removed" => "SatelliteMismatch",
         _ => "InvalidSatelliteSignalCount",
     }
@@ -365,6 +365,26 @@ fn check_case(ctx: &mut Ctx, rng: &mut Rng, case: &Case, perms: usize, case_seed
                             let e = xs[k].clone();
                             let at = rng.usize_below(xs.len() + 1);
                             xs.insert(at, e);
+                        }
+                    }
+                }
+                // the list keeps its length (also at the full 64 entries) and both masks stay as they were: the victim's
+                // satellite and signal are still used by other cells
+                "cell_overwritten_by_copy_of_another" => {
+                    applicable = false;
+                    if let Some(xs) = find_field_mut(&mut fv, "signal_data").and_then(seq_mut) {
+                        let keys: Vec<(u8, (u8, char))> = xs.iter().filter_map(|x| Some((row_sat(x)?, row_sig(x)?))).collect();
+                        if keys.len() == xs.len() && xs.len() >= 3 {
+                            let victims: Vec<usize> = (0..keys.len()).filter(|&i| keys.iter().enumerate().any(|(j, k)| j != i && k.0 == keys[i].0) && keys.iter().enumerate().any(|(j, k)| j != i && k.1 == keys[i].1)).collect();
+                            if !victims.is_empty() {
+                                let v = *rng.pick(&victims);
+                                let mut src = rng.usize_below(xs.len());
+                                if src == v {
+                                    src = (src + 1) % xs.len();
+                                }
+                                xs[v] = xs[src].clone();
+                                applicable = true;
+                            }
                         }
                     }
                 }
